@@ -246,6 +246,12 @@ def const_program(case):
             f'builtin.module {{\n{glob}  %0 = memref.get_global @g : {l3}\n  %1 = "snax.layout_cast"(%0) : ({l3}) -> {l3t}\n  "test.op"(%1) : ({l3t}) -> ()\n'
             f'  %2 = memref.get_global @g : {l3}\n  %3 = "snax.layout_cast"(%2) : ({l3}) -> {l3t}\n  "test.op"(%3) : ({l3t}) -> ()\n}}'
         )
+    elif case["kind"] == "global-two-funcs":
+        # two functions of one module read the same global, one of them through a layout cast
+        src = (
+            f'builtin.module {{\n{glob}  func.func @dev() {{\n    %0 = memref.get_global @g : {l3}\n    %1 = "snax.layout_cast"(%0) : ({l3}) -> {l3t}\n    "test.op"(%1) : ({l3t}) -> ()\n    func.return\n  }}\n'
+            f'  func.func @host() {{\n    %2 = memref.get_global @g : {l3}\n    "test.op"(%2) : ({l3}) -> ()\n    func.return\n  }}\n}}'
+        )
     else:  # global-two-casts: one read feeding two casts
         src = (
             f'builtin.module {{\n{glob}  %0 = memref.get_global @g : {l3}\n  %1 = "snax.layout_cast"(%0) : ({l3}) -> {l3t}\n  "test.op"(%1) : ({l3t}) -> ()\n'
@@ -392,7 +398,7 @@ def gen_case(rng, tier):
         rank = rng.choice([1, 2, 2, 3])
         depth = [rng.choice([1, 2, 2, 3]) for _ in range(rank)]
         tb = [[rng.choice([1, 2, 2, 3, 4]) for _ in range(depth[d])] for d in range(rank)]
-        return {"fam": "const", "tb": tb, "steps": gen_steps(rng, tb, pad=False), "el": rng.choice(["i8", "i32"]), "kind": rng.choice(["const", "const", "global", "global", "global-two-gets", "global-two-casts"]), "mul": rng.choice([1, 3, 7])}
+        return {"fam": "const", "tb": tb, "steps": gen_steps(rng, tb, pad=False), "el": rng.choice(["i8", "i32"]), "kind": rng.choice(["const", "const", "global", "global", "global-two-gets", "global-two-casts", "global-two-funcs"]), "mul": rng.choice([1, 3, 7])}
     ast = KGen(rng).program()
     envs = [{"n": [rng.choice([0, 1, 2]), rng.choice([0, 1, 2])]} for _ in range(K_ENVS[tier])]
     return {"fam": "kernels", "ast": ast, "envs": envs, "clear": rng.random() < 0.2}
